@@ -1260,6 +1260,21 @@ theorem C33_witness_tracking_rejects_upsert :
     afind sTrk.cents 1 = some (-1) ∧ (upsert cfgTrk sTrk ⟨1, 2, 4, 0, 1, 5⟩ []).2 = "err:commit" ∧
     live cfgTrk (upsert cfgTrk sTrk ⟨1, 2, 4, 0, 1, 5⟩ []).1 1 = none := by decide
 
+/-- count tracking: `up 0 v6; up 1 v6; del 1; del 1` — the second Delete of the tombstoned id decrements again:
+    centroid 1 has count 0 with id 0 live (its vector is the slice the centroid was seeded with) -/
+def sTrk0 : State :=
+  (delete cfgTrk (delete cfgTrk (upsert cfgTrk (upsert cfgTrk {} ⟨0, 6, 1, 0, 1, 0⟩ []).1 ⟨1, 6, 2, 0, 1, 0⟩ []).1 1).1 1).1
+
+/-- (finding C33-F4, the variant seen with seed 2) the next new id's rolling average `(c*0+v)/1` is exactly its own
+    vector `v8`; it is written through the shared slice (`rw = [(0, 8)]`, what the harness observed on the real store):
+    the commit succeeds and `Get` of id 0 — never touched by the op — returns `v8` instead of its latest vector `v6`.
+    Replayed on the implementation by the directed case `tracking-overwrite-exact`. -/
+theorem C33_witness_tracking_overwrite_exact :
+    afind sTrk0.cents 1 = some 0 ∧ live cfgTrk sTrk0 0 = some (6, 1) ∧
+    (upsert cfgTrk sTrk0 ⟨2, 8, 3, 0, 1, 1083746799⟩ [(0, 8)]).2 = "ok" ∧
+    live cfgTrk (upsert cfgTrk sTrk0 ⟨2, 8, 3, 0, 1, 1083746799⟩ [(0, 8)]).1 0 = some (8, 1) ∧
+    live cfgTrk (upsert cfgTrk sTrk0 ⟨2, 8, 3, 0, 1, 1083746799⟩ [(0, 8)]).1 2 = some (8, 3) := by decide
+
 /-- de-duplication off and an id upserted twice (outside the documented rule "only if you are certain IDs are
     unique"): the old `(centroid, distance, id)` item stays and the id is hit twice -/
 theorem C33_witness_dedup_off_duplicate_hit :
